@@ -15,10 +15,13 @@
 (* so a wrong restoration is always visible), "drop", and the matching     *)
 (* family "pusha", "pushb", "stra", "strb", "peek", "pop", "matchpeek",    *)
 (* "matchpop", "slice01", "sliceneg" (which need inputs: every string over *)
-(* {a, b} up to InputLen is evaluated for every program).                  *)
+(* {a, b} up to InputLen is evaluated for every program).  Closers may     *)
+(* also be atomic(A/C/N), rule(1/2), repeat and stack_push wrappers: the   *)
+(* "tokens" family checks what is emitted, kept and truncated when rules   *)
+(* sit under atomic modes, look-ahead and failing sequences.               *)
 (***************************************************************************)
 EXTENDS ParserStateMachine, TLC, Json
-CONSTANTS MaxSyms, MaxDepth, Closers, Prims, InputLen
+CONSTANTS MaxSyms, MaxDepth, Closers, Prims, InputLen, OpenCost
 VARIABLES frames, n, pushes
 
 vars == <<frames, n, pushes>>
@@ -41,6 +44,13 @@ Wrap(c, items) ==
     [] c = "looknegfail" -> [op |-> "look", pos |-> FALSE, p |-> Chain(Append(items, Err))]
     [] c = "optfail"     -> [op |-> "opt", p |-> Chain(Append(items, Err))]
     [] c = "optseqfail"  -> [op |-> "opt", p |-> [op |-> "seq", p |-> Chain(Append(items, Err))]]
+    [] c = "atomA"       -> [op |-> "atomic", m |-> "A", p |-> Chain(items)]
+    [] c = "atomC"       -> [op |-> "atomic", m |-> "C", p |-> Chain(items)]
+    [] c = "atomN"       -> [op |-> "atomic", m |-> "N", p |-> Chain(items)]
+    [] c = "rule1"       -> [op |-> "rule", r |-> 1, p |-> Chain(items)]
+    [] c = "rule2"       -> [op |-> "rule", r |-> 2, p |-> Chain(items)]
+    [] c = "rep"         -> [op |-> "rep", p |-> Chain(items)]
+    [] c = "stackpush"   -> [op |-> "push", p |-> Chain(items)]
 
 Top == frames[Len(frames)]
 AddItem(it, dead) ==
@@ -52,6 +62,7 @@ PrimItem(x) ==
     [] x = "pushb"     -> [op |-> "pushlit", s |-> <<98>>]
     [] x = "stra"      -> [op |-> "str", s |-> <<97>>]
     [] x = "strb"      -> [op |-> "str", s |-> <<98>>]
+    [] x = "any"       -> [op |-> "skip", n |-> 1]
     [] x = "slice01"   -> [op |-> "peekslice", lo |-> 0, hi |-> 1, open |-> FALSE, dir |-> "b2t"]
     [] x = "sliceneg"  -> [op |-> "peekslice", lo |-> -2, hi |-> 0, open |-> TRUE, dir |-> "t2b"]
     [] OTHER           -> [op |-> x]        \* peek, pop, matchpeek, matchpop
@@ -62,9 +73,11 @@ Push == /\ "push" \in Prims /\ n < MaxSyms /\ ~Top.dead
 Prim(x) == /\ x # "push" /\ n < MaxSyms /\ ~Top.dead
            /\ AddItem(PrimItem(x), FALSE)
            /\ UNCHANGED pushes /\ n' = n + 1
-Open == /\ n + 1 < MaxSyms /\ ~Top.dead /\ Len(frames) <= MaxDepth
+\* OpenCost = 1: a checkpoint costs two symbols (open, close); OpenCost = 0: one (only the close counts), which
+\* reaches deeper nestings with the same MaxSyms
+Open == /\ n + Len(frames) - 1 + OpenCost < MaxSyms /\ ~Top.dead /\ Len(frames) <= MaxDepth
         /\ frames' = Append(frames, Frame0)
-        /\ UNCHANGED pushes /\ n' = n + 1
+        /\ UNCHANGED pushes /\ n' = n + OpenCost
 Close(c) ==
   /\ Len(frames) > 1 /\ n < MaxSyms
   /\ (Top.dead => ~Fails(c) /\ c \notin {"looknegfail", "optfail", "optseqfail"})   \* no second failure after a dead body
